@@ -15,7 +15,7 @@ TRUSTED = [
 def run(tier, seed):
     chk = gv.Check(PROP, tier, seed, level="proof")
     proof = gv.proof_status(PROP, REQ_PROPS)
-    ncases = 2100 if tier == "quick" else 30000
+    ncases = gv.scaled(PROP, tier, 2100, 30000, chk)
     cases = []
     profiles = ["dev"] if tier == "quick" else ["dev", "relarith"]
     for prof in profiles:
